@@ -157,6 +157,9 @@ def genValveWith (fixed : Option (Engine × Gather)) (seed n : Nat) : List Strin
       ++ " ## SENT " ++ String.intercalate "," ((Spec.requests cfg st).map hexOf)
       ++ " ## SEG " ++ String.intercalate "," ((Spec.segments cfg st).map toString)
       ++ " ## CH " ++ String.intercalate "," [nch cfg.info, nch cfg.players, nch cfg.rules]
+      -- inside the domain of theorem `C02_whole` (its four hypotheses, evaluated)
+      ++ " ## THM " ++ (if Spec.wf cfg st && Spec.wfExchanges cfg && Spec.uncompressed cfg && Spec.fits (Spec.script cfg st)
+          then "1" else "0")
 
 end Gd.Run
 
